@@ -77,7 +77,18 @@ def item(draw, depth=1):
 
 
 index = st.sampled_from([-1, -1, 0, 1, 2, 7])
-badtag = st.sampled_from(["abc", "", "1.5", None, "1a", "0x10", "one", "1 1"])
+# non-integer tags; "f:"/"b:"/"d:" specs are float / bool / Decimal objects that compare (and hash) equal to
+# pool integers, so a lookup keyed by the tag object would confuse them with the integer spelling
+badtag = st.sampled_from(["abc", "", "1.5", None, "1a", "0x10", "one", "1 1", "f:1.0", "f:11.0", "f:55.0", "f:453.0", "f:11.5", "b:True", "b:False", "d:11.0", "d:58.0"])
+
+
+def mk_bad(spec):
+    if isinstance(spec, str) and spec[:2] in ("f:", "b:", "d:"):
+        import decimal
+
+        k, v = spec[:1], spec[2:]
+        return float(v) if k == "f" else (v == "True") if k == "b" else decimal.Decimal(v)
+    return spec
 op = st.one_of(
     st.tuples(st.just("set"), tagspec, val, st.booleans()),
     st.tuples(st.just("set"), tagspec, val, st.just(False)),
@@ -599,7 +610,7 @@ def run_history(ops, record):
             except Exception as e:
                 fail("raises/ctor", f"constructor from dict raised {type(e).__name__}: {e}; {d!r}")
         elif kind == "badtag":
-            how, bt = o[1], o[2]
+            how, bt = o[1], mk_bad(o[2])
             if how == "set":
                 fn = lambda: real.set(bt, "v")  # noqa
             elif how == "setitem":
@@ -659,6 +670,8 @@ def fixed(acc):
         [("set_group", (453, "int"), [[("f", 448, ("s", "p")), ("g", 802, [[("f", 523, ("s", "q"))]])]], True), ("eq", 0), ("pickle",), ("ctor",),
          ("gindex", (453, "int"), 0), ("gindex", (453, "int"), 1), ("gtag", (453, "int"), 448, "p"), ("set", (453, "str"), ("i", 1), False)],
         [("badtag", h, b) for h in ("set", "setitem", "add_group", "set_group", "ctor") for b in ("abc", "", "1.5", None)],
+        [("set", (11, "int"), ("s", "x"), False), ("set", (1, "int"), ("s", "y"), False), ("add_group", (453, "int"), [("f", 448, ("s", "x"))], -1, False)]
+        + [("badtag", h, b) for h in ("set", "setitem", "add_group", "set_group") for b in ("f:11.0", "b:True", "d:11.0", "f:453.0", "f:1.0")] + [("items",)],
     ]
     for ops in cases:
         ops = [tuple(o) for o in ops]
